@@ -447,3 +447,47 @@ def check_named_constructors(chk, F, R):
         chk.fail(R, "unanalysable", "unanalysable: %s" % e, where=e.where, kind="unanalysable")
     except Panic as e:
         chk.fail(R, "panic", "panic: %s" % e, where="src/descriptor/mod.rs")
+
+
+def check_constructed_roundtrip(chk, F, R):
+    """descriptors that no text produced: built with a constructor, printed, parsed"""
+    chk.rule(R, "a descriptor built by a constructor rather than parsed - Descriptor::new_bare / new_sh / new_wsh over each kind of "
+                "script a context admits (a key check, a key-hash check, multi, a conjunction) - prints as a text that parses "
+                "back to an equal descriptor (same variant, same script)")
+    H = Harness(F)
+    m = H.m
+    D = "descriptor::Descriptor::<Pk>::"
+    try:
+        fns = {nm: [q for q in F.fns if q.endswith(D + nm) and q in F.bodies][0] for nm in ("new_bare", "new_sh", "new_wsh")}
+        eq = impl_fn(F, "std::cmp::PartialEq", "eq")
+    except (IndexError, KeyError, ValueError) as e:
+        chk.fail(R, "anchor", "missing anchor: %s" % e, kind="unanalysable")
+        return
+    chk.saw(*fns.values())
+    n = 0
+    for ms_text in ("pk(A)", "pkh(A)", "multi(1,A,B)", "and_v(v:pk(A),pk(B))", "and_v(v:pkh(A),pk(B))"):
+        try:
+            ms = B.deref(B.deref(B.deref(H.parse("sh(%s)" % ms_text).fields["0"]).fields["inner"]).fields["0"])
+        except (Unsupported, Panic, KeyError, AttributeError) as e:
+            chk.fail(R, "unanalysable:" + ms_text, "unanalysable: %s" % e, kind="unanalysable")
+            continue
+        for nm in ("new_bare", "new_sh", "new_wsh"):
+            key = "%s|%s" % (nm, ms_text)
+            try:
+                r = m.call_callee({"def": fns[nm], "resolved": fns[nm], "name": nm, "targs": [c10.STRING]}, [dcopy(ms)])
+                if r.variant != "Ok":
+                    chk.ok(R)          # refusing is not a round-trip matter
+                    continue
+                d = r.fields["0"]
+                txt = H.text(d)
+                back = H.parse(txt)
+                n += 1
+                same = bool(m.call_path(eq, [d, back]))
+                chk.obligation(R, same, key, "Descriptor::%s(%s) is Descriptor::%s; it prints as %s, which parses to Descriptor::%s"
+                               % (nm, ms_text, B.deref(d).variant, txt, B.deref(back).variant if isinstance(B.deref(back), Adt) else back),
+                               where="src/descriptor/mod.rs")
+            except Unsupported as e:
+                chk.fail(R, "unanalysable:" + key, "unanalysable: %s" % e, where=e.where, kind="unanalysable")
+            except (Panic, ValueError) as e:
+                chk.fail(R, key, "panic / parse failure: %s" % e, where="src/descriptor/mod.rs")
+    chk.floor(R, "constructed descriptors", n, 12)
